@@ -440,7 +440,7 @@ def replay(rp):
 def plan(tier, seed):
     if tier == 'quick':
         return [{'ncases': 8, 'nvariants': 4} for _ in range(28)] + [{'sched': True, 'ncases': 6, 'schedules': 40} for _ in range(4)]
-    return [{'ncases': 80, 'nvariants': 12} for _ in range(56)] + [{'sched': True, 'ncases': 60, 'schedules': 120} for _ in range(8)]
+    return [{'ncases': 30, 'nvariants': 8} for _ in range(56)] + [{'sched': True, 'ncases': 40, 'schedules': 120} for _ in range(8)]
 
 
 def run(tier, seed):
